@@ -41,6 +41,7 @@ func unitsExpected(out []byte, hi, lo int) []byte {
 
 func TestC06(t *testing.T) {
 	runProp(t, "C06", func(e *env) {
+		e.coldStage(6, 12, 13, 21, 22)
 		r := e.r
 		dirty := []byte("dirty \\ \" scratch 0123456789 \xff")
 		eval := func(kind string, in []byte) error {
